@@ -7,6 +7,10 @@ BASE = json.load(open("/root/.vp/BASELINE.json"))["cmd"] if Path("/root/.vp/BASE
     "cd /repo && /venv/bin/python -m pytest -ra -q -p no:cacheprovider --timeout=900 --continue-on-collection-errors --junitxml=<file>"
 
 CHECKS = {
+ "C08": dict(cat="exploration", ref="§C08, §3.3",
+    tech="property-based testing (Hypothesis) with differential oracles: lxml writer vs pure-Python writer vs TreeSerializer on a canonical infoset; {lxml, native} handlers x {bytes, str, path, file object, tree, element} sources on structural equality",
+    text="Generated models, instances and configurations; the three writer back ends must yield the same canonical infoset (prefix-independent, declaration-sensitive), and every handler/source combination must yield structurally equal objects (or all raise) for the written document and for variants decorated with comments and processing instructions between elements and inside character data. Searched, not proved.",
+    note="Canonical infoset from an independent strict libxml2 parse; ElementTree sources only where the documented loss of prefixes cannot matter; recorded finding (comments inside text of pre-parsed lxml trees) excluded by construction and replayed."),
  "C18": dict(cat="exploration", ref="§C18",
     tech="property-based testing (Hypothesis): generated models x instances; oracle = exec of the rendered source in an empty namespace + structural equality",
     text="Generated search over binding models (inner classes, nested and mixin enums, inheritance, frozen/tuple models, generic elements, attribute maps, non-empty default factories) and instances with every documented value type; the rendered Python source must run in an empty namespace (imports sufficient) and bind the requested variable to a structurally equal object. Searched, not proved.",
